@@ -76,6 +76,43 @@ class _Finder(importlib.abc.MetaPathFinder):
 
 
 _loaded = None
+_MODSTATE = []       # (container object, pristine shallow copy) of every mutable module-level container of pyModeS
+
+
+def _snapshot_module_state():
+    del _MODSTATE[:]
+    for name, mod in list(sys.modules.items()):
+        if name == "pyModeS" or name.startswith("pyModeS."):
+            for k, v in list(vars(mod).items()):
+                if k.startswith("__"):
+                    continue
+                if type(v) in (dict, list, set):
+                    _MODSTATE.append((v, type(v)(v)))
+
+
+def _snapshot_now():
+    return [(obj, type(obj)(obj)) for obj, _ in _MODSTATE]
+
+
+def _restore_to(snap):
+    for obj, saved in snap:
+        if len(obj) != len(saved):
+            if isinstance(obj, list):
+                obj[:] = saved
+            else:
+                obj.clear()
+                obj.update(saved)
+
+
+def _restore_module_state():
+    """module-level caches must not carry values from one explored path into the next"""
+    for obj, pristine in _MODSTATE:
+        if len(obj) != len(pristine):
+            if isinstance(obj, list):
+                obj[:] = pristine
+            else:
+                obj.clear()
+                obj.update(pristine)
 
 
 def load_repo(src=None, force=False):
@@ -104,6 +141,10 @@ def load_repo(src=None, force=False):
     from . import stubs
     stubs.install(pyModeS)
     _loaded = pyModeS
+    _snapshot_module_state()
+    if _restore_module_state not in core.PRE_PATH_HOOKS:
+        core.PRE_PATH_HOOKS.append(_restore_module_state)
+    core.STATE_SNAPSHOT[0] = (_snapshot_now, _restore_to)
     return pyModeS
 
 
